@@ -61,7 +61,10 @@ class Monitor:
         self.store = {"RAM": {}, "DISK": {}}   # step -> (ics_range, adj_range)
         self.phase = "forward"
         self.pass_idx = 0         # adjoint pass currently being executed (1-based after EndForward)
-        self.finalized = sched.max_n is not None
+        # "blind" driver: never reads an observer (a property getter that does bookkeeping the stream
+        # relies on would be masked by an executor that reads everything after every action)
+        self.blind = bool(cfg.get("blind"))
+        self.finalized = (sched.max_n is not None) if not self.blind else (not C.is_online(cfg))
         self.end_forward_seen = 0
         self.snap_at_endforward = None
         self.ever_written = {"RAM": set(), "DISK": set()}
@@ -118,6 +121,8 @@ class Monitor:
             return False, e
 
     def check_observers(self, before_first=False, after_stop=False):
+        if self.blind:
+            return
         s = self.sched
         # C08
         ok, n_ = self._get("n")
@@ -157,6 +162,8 @@ class Monitor:
 
     def check_usage(self, when):
         """C11: query all four storage types; never raises; no under-report."""
+        if self.blind:
+            return
         for st in (ST.RAM, ST.DISK, ST.WORK, ST.NONE):
             try:
                 u = self.sched.uses_storage_type(st)
@@ -477,7 +484,7 @@ def execute(cfg, extra_next=3, want_trace=False, action_hook=None):
                         break
                     # after the end: exhaustion must hold and keep holding, is_running stays True,
                     # n / r / max_n keep reporting where the execution stands
-                    ok, exh = mon._get("is_exhausted")
+                    ok, exh = mon._get("is_exhausted") if not mon.blind else (True, True)
                     if ok and not exh:
                         mon.v("C09", "is_exhausted-wrong", "is_exhausted False after StopIteration")
                     mon.check_observers()
